@@ -76,6 +76,9 @@ impl Campaign for C09c {
         }
     }
     fn generate(&self, rng: &mut Rng, index: u64, tier: Tier) -> Scenario {
+        if index % 5 == 4 {
+            return super::universal::gen_universal(rng, index, false);
+        }
         let mut sc = Scenario::new();
         knobs(rng, &mut sc);
         let mut g = rng.sub("scenario");
@@ -143,6 +146,9 @@ impl Campaign for C09c {
         sc
     }
     fn check(&self, sc: &Scenario, out: &RunOut) -> Verdict {
+        if sc.note.starts_with("universal") {
+            return super::universal::universal_verdict("C09", sc, out);
+        }
         let mut v = Verdict::default();
         let (e, discs) = compare(sc, out, 0);
         let main = snap(out, "main").unwrap();
